@@ -41,12 +41,15 @@ func init() {
 		register("gw", prefix, true, func(t *testing.T, r *sim.Run) { gw.PreBubble(); inBubble(t, true, func() { fn(r) }) })
 	}
 	gwReg("c03", gw.RunC03)
+	gwReg("c03p", gw.RunC03)
 	gwReg("c04", gw.RunC04)
 	gwReg("c02", gw.RunC02)
 	gwReg("c01", gw.RunC01)
 	gwReg("c15", gw.RunC15)
+	gwReg("c15p", gw.RunC15)
 	gwReg("c12", gw.RunC12)
 	gwReg("c11", gw.RunC11)
+	gwReg("c11p", gw.RunC11)
 	gwReg("c10", gw.RunC10)
 	gwReg("c10p", gw.RunC10)
 	gwReg("c16", gw.RunC16)
